@@ -95,6 +95,7 @@ class Ctx(object):
         self.notes = []
         self.extra = {}
         self.level = 'other'
+        self.analysis_errors = []
         self.t0 = time.time()
 
     def rule(self, rule_id, desc, floor=0, oracle=''):
@@ -104,6 +105,16 @@ class Ctx(object):
 
     def thorough(self):
         return self.tier == 'thorough'
+
+    def guard(self, fn, *args, **kwargs):
+        '''run one rule group; an AnalysisError inside it is recorded and the other groups still run.  If some group
+        reports a violation the run ends with exit 1 (the violation is diagnosable); otherwise a recorded analysis error
+        ends it with exit 2.'''
+        try:
+            return fn(*args, **kwargs)
+        except AnalysisError as e:
+            self.analysis_errors.append('%s: %s' % (getattr(fn, '__name__', 'rule'), e))
+            return None
 
     def assume(self, text):
         if text not in self.assumptions:
@@ -169,7 +180,9 @@ def finish(ctx, explanation, write_evidence=True):
                 json.dump(f.as_dict(), fh, indent=1)
             replay_paths.append(path)
             print('VIOLATION property=%s replay=%s' % (ctx.prop, path))
-    if floor_errors and rc == 0:
+    for e in ctx.analysis_errors:
+        print('ANALYSIS-ERROR property=%s %s' % (ctx.prop, e))
+    if (floor_errors or ctx.analysis_errors) and rc == 0:
         for e in floor_errors:
             print('ANALYSIS-ERROR property=%s %s' % (ctx.prop, e))
         rc = 2
